@@ -16,7 +16,7 @@ ok, out = ck.genmodel()
 if not ok:
     broken.append(("genmodel", out[-2000:]))
 MODEL = ["Gen/C13_NilnessTable.vo", "Model/C13.vo", "Model/C13_Nilness.vo", "Model/C13_Check.vo"]
-ok, out = ck.coq_make(MODEL + ["Proofs/C13.vo", "Proofs/C13_Lattices.vo", "Proofs/C13_Sparse.vo", "Proofs/C13_Nilness.vo", "Examples/C13.vo"])
+ok, out = ck.coq_make(MODEL + ["Proofs/C13.vo", "Proofs/C13_Lattices.vo", "Proofs/C13_MapLattice.vo", "Proofs/C13_Sparse.vo", "Proofs/C13_Nilness.vo", "Examples/C13.vo"])
 if not ok:
     broken.append(("coq-make", out[-3000:]))
     ok2, out2 = ck.coq_make(MODEL)
